@@ -18,7 +18,7 @@ def main():
     if os.path.exists(SCRATCH):
         shutil.rmtree(SCRATCH)
     sh(f"git clone -q /repo {SCRATCH}")
-    ids = args or sorted(d for d in os.listdir(os.path.join(V, "seeded")) if re.fullmatch(r"C\d\d-\d", d))
+    ids = args or sorted(d for d in os.listdir(os.path.join(V, "seeded")) if re.fullmatch(r"C\d\d-\w", d))
     results = {}
     env = dict(os.environ, VERIF_REPO=SCRATCH, VERIF_TIER=tier)
     for sid in ids:
